@@ -83,6 +83,7 @@ pub enum Op {
     Clone,
     Eq(usize, usize, Vec<u32>),
     CloneFrom(usize, usize, Vec<u32>),
+    EqSelf,
     ViewEq,
     // 6.3
     Get(usize, usize),
@@ -332,6 +333,7 @@ pub fn parse_line(line: &str) -> Option<Cmd> {
         "to_owned" => { argc(0)?; Op::ToOwned }
         "clone" => { argc(0)?; Op::Clone }
         "eq" => { argc(3)?; Op::Eq(n(0)?, n(1)?, l(2)?) }
+        "eqself" => { argc(0)?; Op::EqSelf }
         "clone_from" => { argc(3)?; Op::CloneFrom(n(0)?, n(1)?, l(2)?) }
         "vieweq" => { argc(0)?; Op::ViewEq }
         "get" => { argc(2)?; Op::Get(n(0)?, n(1)?) }
@@ -419,7 +421,7 @@ pub fn receiver_ok(cmd: &Cmd) -> bool {
     let view = matches!(last, Last::View | Last::ViewMut);
     match &cmd.op {
         New(..) | Init(..) | FromVec(..) | FromBox(..) | Default | WithCapacity(_) | IntoVec | IntoBox
-        | IntoIter(_) | Clone | Eq(..) | CloneFrom(..) | InsertRow(..) | InsertCol(..) | RemoveRow(..) | RemoveCol(..) | Clear
+        | IntoIter(_) | Clone | Eq(..) | EqSelf | CloneFrom(..) | InsertRow(..) | InsertCol(..) | RemoveRow(..) | RemoveCol(..) | Clear
         | SwapDimensions | Reserve(_) | ReserveExact(_) | ShrinkToFit | Capacity | De(..) => root,
         ToOwned => view,
         ViewEq => last == Last::View,
